@@ -35,13 +35,26 @@ func (d *c16Drv) c16bTopicName(w string) string {
 	return d.topics[k]
 }
 
+// the name the session of user u uses for topic tn: a p2p topic is addressed by the other party's user id
+func (d *c16Drv) c16bWire(u int, tn string) string {
+	if strings.HasPrefix(tn, "p2p") {
+		if u1, u2, err := types.ParseP2P(tn); err == nil {
+			if u1 == d.users[u] {
+				return u2.UserId()
+			}
+			return u1.UserId()
+		}
+	}
+	return tn
+}
+
 // the session of user u is attached to topic tn (a {sub} without parameters keeps the modes)
 func (d *c16Drv) c16bAttach(u int, tn string) string {
 	if tn == "sys" || d.sess[u] == nil || d.sess[u].s.getSub(tn) != nil {
 		return ""
 	}
 	id := d.nextID()
-	if c := d.send(u, id, `{"sub":{"id":"`+id+`","topic":"`+tn+`"}}`); c == nil || c.Code >= 300 {
+	if c := d.send(u, id, `{"sub":{"id":"`+id+`","topic":"`+d.c16bWire(u, tn)+`"}}`); c == nil || c.Code >= 300 {
 		return "attach-" + c16Code(c)
 	}
 	return ""
@@ -64,7 +77,7 @@ func (d *c16Drv) c16bReload(tn string) {
 		if vs.s.getSub(tn) != nil {
 			att = append(att, u)
 			id := d.nextID()
-			d.send(u, id, `{"leave":{"id":"`+id+`","topic":"`+tn+`"}}`)
+			d.send(u, id, `{"leave":{"id":"`+id+`","topic":"`+d.c16bWire(u, tn)+`"}}`)
 		}
 	}
 	if t := globals.hub.topicGet(tn); t != nil {
@@ -101,6 +114,25 @@ func (d *c16Drv) c16bLine(w []string) (string, bool) {
 	case "AGE":
 		memverif.AgeFilesC16b(time.Duration(at(1)) * time.Hour)
 		return "AGE ok", true
+	case "P2P":
+		u1, u2 := at(2), at(3)
+		tn := d.users[u1].P2PName(d.users[u2])
+		d.topics[at(1)] = tn
+		id := d.nextID()
+		c := d.send(u1, id, `{"sub":{"id":"`+id+`","topic":"`+d.users[u2].UserId()+`","set":{"sub":{"mode":"`+w[4]+`"}}}}`)
+		id2 := d.nextID()
+		c2 := d.send(u2, id2, `{"sub":{"id":"`+id2+`","topic":"`+d.users[u1].UserId()+`","set":{"sub":{"mode":"`+w[5]+`"}}}}`)
+		res := "P2P ok"
+		if c == nil || c.Code >= 300 || c2 == nil || c2.Code >= 300 {
+			res = "P2P " + c16Code(c) + "/" + c16Code(c2)
+		}
+		side := ""
+		for _, u := range []int{u1, u2} {
+			if s, ok := c16bSubRow(tn, d.users[u]); ok {
+				side += " want=" + strconv.Itoa(int(s.Want)) + " given=" + strconv.Itoa(int(s.Given))
+			}
+		}
+		return res + " |" + side, true
 	case "MEMBER":
 		tn := d.topics[at(1)]
 		owner, u := at(2), at(3)
@@ -139,7 +171,14 @@ func (d *c16Drv) c16bLine(w []string) (string, bool) {
 		}
 		id := d.nextID()
 		extra := ""
-		urls := d.expandList(w[5])
+		urls := d.expandList(w[6])
+		opts := ""
+		if strings.Contains(w[5], "n") {
+			opts += `,"noecho":true`
+		}
+		if strings.Contains(w[5], "h") {
+			opts += `,"head":{"mime":"text/x-drafty","sender":"usrAAAAAAAAAAB"}`
+		}
 		if len(urls) > 0 || as != sess {
 			var parts []string
 			if len(urls) > 0 {
@@ -154,7 +193,7 @@ func (d *c16Drv) c16bLine(w []string) (string, bool) {
 		if w[4] != "-" {
 			memverif.SetFault(at(4), false)
 		}
-		c := d.send(sess, id, `{"pub":{"id":"`+id+`","topic":"`+tn+`","content":"x"}`+extra+`}`)
+		c := d.send(sess, id, `{"pub":{"id":"`+id+`","topic":"`+d.c16bWire(sess, tn)+`","content":"x"`+opts+`}`+extra+`}`)
 		memverif.ClearFault()
 		var calls []string
 		for _, n := range memverif.CallLog() {
